@@ -20,6 +20,18 @@ the Lean model):
 * "every position of the timeline": every integer time between the first and the last time point.
 * a part with a single time point: its only position maps to 0 and 0 maps back to it.
 * values are binary64 in the implementation; "exact" is checked to 1e-9 relative.
+* "user-supplied beats per signature": any positive integer may be given for "beats/beat_type" (a divisor of the
+  numerator or not, smaller or larger than it); it is used as given.  On a stretch where one signature is in force the
+  beat map advances by the quarter map's advance times beat_type/4 (times musical_beats/beats in musical mode).
+* "the function can take scalar values or lists/arrays of values" (docstrings of the five maps): a scalar (python or numpy
+  number) gives a 0-d result, a list / tuple / array of any rank (also empty) a result of the same shape, element by
+  element the scalar call; positions outside the key-point range are NaN for the four maps, quarter_duration_map
+  extends its first / last value.
+* "for every part": also a part that was queried while it was being built.  The maps after an (edit, query, edit, ...)
+  history must be those of a part built from the same edits without the queries (clause `stale`).
+* two parts of one score (same quarter durations, signatures, beat mode; different extents) are checked as parts; the
+  difference of their maps at common positions is only compared with the model (C02.origin_common_across_parts: the
+  constant shift2 - shift1) - the statement itself says nothing about it.
 """
 import math
 from fractions import Fraction as F
@@ -31,35 +43,61 @@ from core import Eval
 
 PROPERTY = "C02"
 DRIVER = "drv_c02"
-PROPS = ["PartituraModel.Props.C02"]
+PROPS = ["PartituraModel.Props.C02", "PartituraModel.Props.C02Args", "PartituraModel.Props.C02Musical",
+         "PartituraModel.Props.C02Origin", "PartituraModel.Props.C02History"]
 TRUSTED = [
     "scipy.interpolate.interp1d kind='linear' (NaN outside the knot range, left-searchsorted segment) and kind='previous' "
     "with fill_value=(y0,yN): modelled as Model.TimeMap.interp / prevValue",
+    "numpy/scipy broadcasting: np.asarray(argument) keeps the shape, a python/numpy scalar becomes 0-d, the interpolator works "
+    "element by element - modelled as Model.TimeMap.Nested.map (callMap / callQD); compared on scalars, lists, tuples, integer "
+    "arrays, 2-D arrays and empty sequences",
     "binary64 rounding of the cumulative sums and of the interpolation: the model is exact, the implementation is compared "
     "within 1e-9 relative; the repaired pickup test treats lengths within numpy.isclose of a full bar as a full bar, the "
     "model compares exactly (the two differ only for divisions beyond ~1e7)",
-    "Part.add / set_quarter_duration / the TimePoint list (property C01) produce the _quarter_times, _quarter_durations, "
-    "first_point, last_point and iter_all(TimeSignature) the model is fed with",
+    "the TimePoint list of Part.add (property C01) is modelled as a sorted set of times (Model.TimeMap.hstep); the state "
+    "_time_interpolator reads (number of points, first/last point, _quarter_times/_quarter_durations, signatures with their "
+    "musical beats in iter_all order, first measure at the first point, musical flag) is computed by the model from the "
+    "edit/query history and compared exactly with the real object (request `hist`), and the maps of the model-built part are "
+    "compared at the key points (request `hmap`); the other requests feed the model with the state read off the real object",
     "inverse maps are compared with the model only strictly inside the image (1e-9 away from both ends); at the ends the "
     "oracle alone judges inv(fwd(t))",
 ]
 PARTIAL = [
-    "origin_plain_partial / origin_pickup_partial: zero at the first time point (resp. at the end of the pickup measure) is "
-    "proved only for parts whose first key point is the first time point (first_point.t == 0 in practice); what holds in "
-    "general is origin_first_key / pickup_end_value; open finding F-C02-1 for parts that start later, negation proved at "
-    "the witness (origin_late_start_counterexample, origin_late_pickup_counterexample)",
+    "origin_plain_partial / origin_pickup_partial: zero at the first time point (resp. at the end of the pickup measure) holds "
+    "exactly for the parts whose first key point is the first time point (origin_zero_iff_plain / origin_zero_iff_pickup: an "
+    "equivalence, so nothing about the origin is left unproved); for every part the value there is elapsed[t0, first) "
+    "(origin_value_plain / origin_value_pickup), zero lies at the unique z with elapsed[t0, z] = pickup shift "
+    "(zero_characterisation, zero_unique, zero_plain, zero_pickup) and t0 = 0 for every part reachable through the API "
+    "(built_first_key_zero).  The statement's wording therefore fails for late-starting parts: open finding F-C02-1, negation "
+    "proved at the witness (origin_late_start_counterexample, origin_late_pickup_counterexample); it is kept because all parts "
+    "of a score share the origin (origin_common_across_parts, built_common_origin)",
+    "musical beats are positive integers (what the docstring calls 'the number of musical beats'); non-integer table values "
+    "are not modelled or generated",
+    "set_quarter_duration: the model mirrors the list surgery; proved: the lists stay strictly increasing, positive and start "
+    "at time 0 (built_qd) and one call changes quarter_duration_map exactly on [t, next change) (setQD_law, for positions from "
+    "the first entry on); the TimePoint.quarter attributes and the cached Part._quarter_map the call also updates are "
+    "property C01's subject",
+    "NaN / infinite ARGUMENTS are not generated (quarter_duration_map(nan) returns the last value)",
     "two time signatures or two measures starting at the same time are not generated (iteration order is C10's subject)",
-    "non-positive divisions or signature numbers (WF fails) are outside the theorems and the generator",
+    "non-positive divisions or signature numbers (WF / ValidOp fail) are outside the theorems and the generator",
 ]
 RULE = ("real partitura.score.Part objects built through Part(), set_quarter_duration, add(TimeSignature/Measure/Note), "
         "use_musical_beat/use_notated_beat/set_musical_beat_per_ts: 0-8 quarter-duration changes and 0-8 signatures on and off "
         "barlines and each other, first measure absent / pickup of every length / full / overfull, notated and musical mode "
-        "with default and user tables, late-starting, single-point and empty parts; distinct = distinct structural "
-        "description; non-trivial = at least two time points")
-LEVEL_TEXT = ("Lean 4 theorems (all knot lists, all rationals, by induction over the key-point list) about an executable model "
-              "of Part._time_interpolator, the four maps, quarter_duration_map and the musical-beat switches; the model is run "
-              "against the real implementation on generated parts at every integer position (arrays and scalars), and an "
-              "independent Fraction oracle recomputes the statement's value on the implementation's outputs.")
+        "with default and user tables (values dividing the numerator or not, up to 200, larger than the numerator), "
+        "late-starting, single-point and empty parts; half of the parts are built by a random interleaving of their edits with "
+        "warm-up queries of all five maps on the half-built part; one case in eight is a pair of parts of one score (same "
+        "durations/signatures, different extents); every map is called on every integer position as an array and as scalars "
+        "and on 6-9 arguments of other shapes (list, tuple, int array, 2-D, empty, at change points and outside the range); "
+        "distinct = distinct structural description incl. the history; non-trivial = at least two time points")
+LEVEL_TEXT = ("Lean 4 theorems (all knot lists, all rationals, all histories - by induction over the key-point list resp. the "
+              "edit history) about an executable model of Part._time_interpolator, the four maps, quarter_duration_map, the "
+              "musical-beat switches with arbitrary user tables, set_quarter_duration and the first/last time point "
+              "bookkeeping; every part reachable through the API is proved well formed, so the theorems apply to it without "
+              "side conditions.  The model is run against the real implementation on generated parts at every integer "
+              "position (arrays, scalars and other shapes), the state the model computes from the edit/query history is "
+              "compared exactly with the real object, and an independent Fraction oracle recomputes the statement's value on "
+              "the implementation's outputs.")
 SEARCH_LIMIT = 3000
 
 DIVS = [1, 2, 3, 4, 5, 6, 7, 8, 9, 10, 12, 16, 24, 48, 96, 480, 960]
@@ -75,12 +113,27 @@ def _table(rng, sigs):
     pool = list(dict.fromkeys(sigs))
     rng.shuffle(pool)
     for (b, bt) in pool[: rng.randint(1, max(1, len(pool)))]:
-        divisors = [d for d in range(1, b + 1) if b % d == 0]
-        tbl["%d/%d" % (b, bt)] = rng.choice(divisors + [rng.randint(1, b + 2)])
+        tbl["%d/%d" % (b, bt)] = _mb_value(rng, b)
     if rng.random() < 0.3:
         b, bt = rng.choice(SIGS)
-        tbl.setdefault("%d/%d" % (b, bt), rng.randint(1, b))
+        tbl.setdefault("%d/%d" % (b, bt), _mb_value(rng, b))
     return tbl
+
+
+def _mb_value(rng, b):
+    """a user-supplied number of musical beats: any positive integer - a divisor of the numerator, a value that does
+    not divide it, the numerator itself, values larger than the numerator (also much larger)"""
+    r = rng.random()
+    if r < 0.30:
+        return rng.choice([d for d in range(1, b + 1) if b % d == 0])
+    if r < 0.55:
+        nd = [d for d in range(1, b + 1) if b % d != 0]
+        return rng.choice(nd) if nd else b + 1
+    if r < 0.85:
+        return rng.randint(b + 1, 3 * b + 5)
+    if r < 0.95:
+        return rng.choice([1, 2, 3, 5, 7, 11, 13, 17, 19, 23])
+    return rng.randint(25, 200)
 
 
 def _mode_ops(rng, ts_list):
@@ -103,8 +156,14 @@ def _mode_ops(rng, ts_list):
         if rng.random() < 0.5:
             ops.append(["mus", {}])
         return ops, "toggle"
-    if r < 0.95:
+    if r < 0.93:
         return adds + [["set", _table(rng, sigs)]], "set-only"
+    if r < 0.96:
+        # values stored in notated mode are kept by use_musical_beat() without a table
+        ops = adds + [["set", _table(rng, sigs)], ["mus", {}]]
+        if rng.random() < 0.4:
+            ops += [["not"], ["set", _table(rng, sigs)], ["mus", {}]]
+        return ops, "set-then-musical"
     return adds + [["mus", {}], ["set", _table(rng, sigs)], ["mus", _table(rng, sigs)]], "musical-set"
 
 
@@ -219,6 +278,27 @@ def gen_exact_bar(rng):
     return gen_part(rng)
 
 
+def gen_pair(rng):
+    """two parts of one score: same quarter durations, signatures and mode operations, different extents"""
+    a = gen_part(rng)
+    fa, la = extent(a)
+    b = dict(a)
+    fb = rng.randint(fa, max(fa, la - 1)) if rng.random() < 0.7 else fa
+    lb = rng.randint(fb + 1, la + 6)
+    r = rng.random()
+    if r < 0.4:
+        b["measures"] = []
+    elif r < 0.7:
+        b["measures"] = [m for m in a["measures"] if m[0] >= fb]
+    else:
+        b["measures"] = [m for m in a["measures"] if m[0] > fa]
+    b["notes"] = [[fb, lb]]
+    b["halves"] = []
+    f2, l2 = extent(b)
+    b["first"], b["last"] = f2, l2
+    return {"kind": "pair", "a": a, "b": b}
+
+
 def cases(rng, tier):
     n = {"quick": 150, "thorough": 5000, "search": 2500}.get(tier, 150)
     for t in (0, 7):
@@ -226,9 +306,18 @@ def cases(rng, tier):
             yield {"kind": "single", "t": t, "what": what, "q0": 4}
     for i in range(n):
         if i % 8 == 7:
-            yield gen_exact_bar(rng)
+            d = gen_exact_bar(rng)
+        elif i % 8 == 3:
+            d = gen_pair(rng)
+            if i % 16 == 3:
+                d["b"]["hist"] = gen_hist(rng, d["b"])
+            yield d
+            continue
         else:
-            yield gen_part(rng)
+            d = gen_part(rng)
+        if i % 2 == 1:
+            d["hist"] = gen_hist(rng, d)
+        yield d
 
 
 # ------------------------------------------------------------------ the statement, recomputed
@@ -333,32 +422,88 @@ def close(a, b, scale=1.0, tol=1e-9):
 
 
 # ------------------------------------------------------------------ evaluation
-def build(d):
+def _apply(p, S, step, counter, warm):
+    """one step of a history on a real Part"""
+    k = step[0]
+    if k == "qd":
+        p.set_quarter_duration(step[1], step[2])
+    elif k == "ts":
+        p.add(S.TimeSignature(step[2], step[3]), step[1])
+    elif k == "set":
+        p.set_musical_beat_per_ts(dict(step[1]))
+    elif k == "mus":
+        p.use_musical_beat(dict(step[1]))
+    elif k == "not":
+        p.use_notated_beat()
+    elif k == "mea":
+        counter[0] += 1
+        p.add(S.Measure(number=counter[0]), step[1], step[2])
+    elif k == "note":
+        counter[1] += 1
+        p.add(S.Note(step="C", octave=4, voice=1, id="n%d" % counter[1]), step[1], step[2])
+    elif k == "q":
+        # a warm-up query on the half-built part: all five maps, scalar and array
+        try:
+            n = len(p._points)
+            lo = p.first_point.t if n else 0
+            hi = p.last_point.t if n else 0
+            xs = np.array([lo, (lo + hi) / 2.0, hi, hi + 1.0, -1.0])
+            for nm in ("beat_map", "quarter_map", "quarter_duration_map"):
+                f = getattr(p, nm)
+                f(xs), f(float(lo))
+            for nm, fw in (("inv_beat_map", "beat_map"), ("inv_quarter_map", "quarter_map")):
+                ys = getattr(p, fw)(xs[:3])
+                getattr(p, nm)(ys), getattr(p, nm)(float(np.atleast_1d(ys)[0]))
+        except Exception as e:
+            warm.append("raised: query on the half-built part after %d step(s): %r" % (counter[2], e))
+    counter[2] += 1
+
+
+def canonical_hist(d):
+    """the edits of a description in the canonical order (no queries)"""
+    if d["kind"] == "single":
+        return {"ts": [["ts", d["t"], 4, 4]], "note": [["grace", d["t"]]], "empty": []}[d["what"]]
+    return ([["qd", t, q] for t, q in d["qd"]] + [list(o) for o in d["ops"]]
+            + [["mea", s, e] for s, e in d["measures"]] + [["note", s, e] for s, e in d["notes"]])
+
+
+def build(d, hist=None, warm=None):
+    """the real Part of a description; `hist` = the steps to run (default: canonical order, no queries)"""
     import partitura.score as S
 
     p = S.Part("P0", quarter_duration=d["q0"])
-    if d["kind"] == "single":
-        if d["what"] == "ts":
-            p.add(S.TimeSignature(4, 4), d["t"])
-        elif d["what"] == "note":
-            p.add(S.GraceNote(grace_type="acciaccatura", step="C", octave=4), d["t"], d["t"])
-        return p
-    for t, q in d["qd"]:
-        p.set_quarter_duration(t, q)
-    for op in d["ops"]:
-        if op[0] == "ts":
-            p.add(S.TimeSignature(op[2], op[3]), op[1])
-        elif op[0] == "set":
-            p.set_musical_beat_per_ts(dict(op[1]))
-        elif op[0] == "mus":
-            p.use_musical_beat(dict(op[1]))
-        elif op[0] == "not":
-            p.use_notated_beat()
-    for i, (s, e) in enumerate(d["measures"]):
-        p.add(S.Measure(number=i + 1), s, e)
-    for i, (s, e) in enumerate(d["notes"]):
-        p.add(S.Note(step="C", octave=4, voice=1, id="n%d" % i), s, e)
+    counter = [0, -1, 0]
+    warm = [] if warm is None else warm
+    for step in (canonical_hist(d) if hist is None else hist):
+        if step[0] == "grace":
+            p.add(S.GraceNote(grace_type="acciaccatura", step="C", octave=4), step[1], step[1])
+        else:
+            _apply(p, S, step, counter, warm)
     return p
+
+
+def gen_hist(rng, d):
+    """an interleaving of the edits of `d` with warm-up queries: the order inside the quarter-duration changes and
+    inside the signature/mode operations is kept (it carries meaning), measures and notes go anywhere"""
+    streams = [[["qd", t, q] for t, q in d["qd"]], [list(o) for o in d["ops"]]]
+    free = [["mea", s, e] for s, e in d["measures"]] + [["note", s, e] for s, e in d["notes"]]
+    rng.shuffle(free)
+    k = rng.randint(1, 3)
+    for i in range(k):
+        streams.append(free[i::k])
+    streams = [s for s in streams if s]
+    out = []
+    pq = rng.choice([0.1, 0.25, 0.5])
+    while streams:
+        s = rng.choice(streams)
+        out.append(s.pop(0))
+        if not s:
+            streams.remove(s)
+        if rng.random() < pq:
+            out.append(["q"])
+    if not any(s[0] == "q" for s in out):
+        out.insert(rng.randint(1, len(out)), ["q"])
+    return out
 
 
 def _tbl_tokens(tbl):
@@ -382,16 +527,78 @@ def ops_tokens(d):
     return " ".join([str(len(ops))] + ops)
 
 
+def first_measure(p):
+    """what _time_interpolator finds: the first Measure starting at the first time point"""
+    import partitura.score as S
+
+    if not len(p._points):
+        return None
+    m1 = next(p.first_point.iter_starting(S.Measure), None)
+    if m1 is None or m1.start is None or m1.end is None:
+        return None
+    return (int(m1.start.t), int(m1.end.t))
+
+
 def part_tokens(p, d):
-    """the model's input: the state _time_interpolator reads, the op history of the signatures, the first measure"""
+    """the model's input: the state _time_interpolator reads off the real object, the op history of the signatures"""
     n = len(p._points)
     first = p.first_point.t if n else 0
     last = p.last_point.t if n else 0
     qd = list(zip(p._quarter_times, p._quarter_durations))
     toks = ["%d %d %d" % (n, first, last), W.lst(lambda x: "%d %d" % (int(x[0]), int(x[1])), qd), ops_tokens(d)]
-    m1 = [m for m in d.get("measures", []) if m[0] == first]
-    toks.append("%d %d" % tuple(m1[0]) if m1 else "-")
+    m1 = first_measure(p)
+    toks.append("%d %d" % m1 if m1 else "-")
     return " ".join(toks)
+
+
+def hist_tokens(d, hist):
+    """`<q0> <n> step*` for the model's own builder"""
+    out = []
+    for s in hist:
+        if s[0] in ("qd", "mea"):
+            out.append("%s %d %d" % (s[0], s[1], s[2]))
+        elif s[0] == "note":
+            out.append("span %d %d" % (s[1], s[2]))
+        elif s[0] == "grace":
+            out.append("span %d %d" % (s[1], s[1]))
+        elif s[0] == "ts":
+            out.append("ts %d %d %d" % (s[1], s[2], s[3]))
+        elif s[0] in ("set", "mus"):
+            out.append("%s %s" % (s[0], _tbl_tokens(s[1])))
+        elif s[0] == "not":
+            out.append("not")
+        elif s[0] == "q":
+            out.append("q")
+    return " ".join(["%d %d" % (d["q0"], len(out))] + out)
+
+
+def state_text(p):
+    """canonical text of the state the model's `hist` request prints"""
+    import partitura.score as S
+
+    n = len(p._points)
+    first = p.first_point.t if n else 0
+    last = p.last_point.t if n else 0
+    qd = list(zip(p._quarter_times, p._quarter_durations))
+    sig = [(s.start.t, s.beats, s.beat_type, s.musical_beats) for s in p.iter_all(S.TimeSignature)]
+    m1 = first_measure(p)
+    return W.f_tuple(W.f_int(n), W.f_int(first), W.f_int(last),
+                     W.f_list(lambda e: W.f_tuple(W.f_int(e[0]), W.f_int(e[1])), qd),
+                     W.f_bool(p._use_musical_beat),
+                     W.f_list(lambda s: W.f_tuple(*[W.f_int(x) for x in s]), sig),
+                     W.f_opt(lambda m: W.f_tuple(W.f_int(m[0]), W.f_int(m[1])), m1))
+
+
+def nested_tokens(a):
+    if isinstance(a, (list, tuple)):
+        return " ".join(["L %d" % len(a)] + [nested_tokens(x) for x in a])
+    return "S " + W.q(a)
+
+
+def _nan_nested(v):
+    if isinstance(v, list):
+        return [_nan_nested(x) for x in v]
+    return None if v != v else v
 
 
 def _arr(f, xs):
@@ -403,9 +610,30 @@ def _nanlist(vals):
 
 
 def evaluate(d):
+    if d.get("kind") == "pair":
+        return evaluate_pair(d)
+    return _eval_part(d)[0]
+
+
+def _same(a, b, tol=1e-9):
+    return (a != a and b != b) or (a == a and b == b and abs(a - b) <= tol * max(1.0, abs(a), abs(b)))
+
+
+def _eval_part(d):
+    """-> (Eval, real part, model tokens of the part, the five maps)"""
     ev = Eval()
-    p = build(d)
+    warm = []
+    hist = d.get("hist")
+    p = build(d, hist, warm)
+    ev.oracle += warm
     head = part_tokens(p, d)
+    # the model builds the state _time_interpolator reads from the edit/query history alone
+    try:
+        ev.requests.append("hist " + hist_tokens(d, hist if hist is not None else canonical_hist(d)))
+        ev.impl.append(state_text(p))
+    except Exception as e:
+        ev.impl.append("err")
+        ev.oracle.append("raised: reading the state of the part: %r" % (e,))
     maps = {}
     try:
         maps = {"bm": p.beat_map, "qm": p.quarter_map, "ibm": p.inv_beat_map, "iqm": p.inv_quarter_map,
@@ -415,7 +643,7 @@ def evaluate(d):
         for nm in ("bm", "qm", "ibm", "iqm"):
             ev.requests.append("%s %s 0" % (nm, head))
             ev.impl.append("err")
-        return ev
+        return ev, p, head, maps
 
     if d["kind"] == "single":
         t0 = d["t"]
@@ -437,8 +665,10 @@ def evaluate(d):
                     ev.requests.append("%s %s %s" % (f_name, head, W.lst(W.q, args)))
                     ev.impl.append("err")
                     ev.oracle.append("raised: %s on a part with %d time point(s): %r" % (f_name, len(p._points), e))
+        _nested_checks(ev, maps, head, {"bm": [t0, [t0, t0 + 1], [[t0], [0]], []], "qm": [float(t0), (t0, 0)],
+                                        "ibm": [0, [0.0, 1.0], []], "iqm": [0.0, [[0, 0]]], "qdm": [t0, [t0, 0, 99], []]})
         ev.key = None
-        return ev
+        return ev, p, head, maps
 
     sp = Spec(d)
     first, last = sp.first, sp.last
@@ -573,10 +803,136 @@ def evaluate(d):
     except Exception as e:
         ev.oracle.append("raised: reading musical beats: %r" % (e,))
 
+    # ---- the beat factor of every signature, as a relation between the implementation's two forward maps:
+    #      on a stretch where one signature is in force, beats = quarters * beat_type/4 (* musical_beats/beats)
+    if "bm" in fw and "qm" in fw:
+        starts = [s[0] for s in sp.ts]
+        for i, s in enumerate(sp.ts):
+            a = max(s[0], first)
+            b = min(starts[i + 1] if i + 1 < len(starts) else last, last)
+            if b <= a:
+                continue
+            fac = F(s[2], 4) * (F(s[3], s[1]) if sp.musical else 1)
+            db = fw["bm"][b - first] - fw["bm"][a - first]
+            dq = fw["qm"][b - first] - fw["qm"][a - first]
+            if not close(db, F(*dq.as_integer_ratio()) * fac if dq == dq else 0, float(abs(sp.cumulative("beat", first, last)[last]))):
+                ev.oracle.append("exact: under %d/%d (musical beats %s) from %d to %d the beat map advances by %r and the quarter "
+                                 "map by %r: factor %r instead of %s" % (s[1], s[2], s[3] if sp.musical else "off", a, b, db, dq,
+                                                                         db / dq if dq else None, fac))
+                break
+
+    # ---- arguments of every shape (scalar / list / tuple / integer array / 2-D / empty), at change points and outside
+    kin = [k for k in keys if first <= k <= last]
+    k1, k2 = kin[len(kin) // 2], kin[-1]
+    args = [k1, [k1, k2], (first, k1, last + 1), np.array([[first, k1], [k2, hi + 1]]), [], [[lo - 1], [k1]],
+            np.array(kin, dtype=np.int64)]
+    inv_args = {}
+    for nm in ("bm", "qm"):
+        if nm in fw:
+            ymin, ymax = _arr(maps[nm], [lo, hi])
+            if ymin == ymin and ymax == ymax and ymin < ymax:
+                eps = 1e-9 * max(1.0, abs(ymin), abs(ymax))
+                ins = [y for y in fw[nm][: len(ints)] if y == y and ymin + eps < y < ymax - eps]
+                if ins:
+                    y1, y2 = ins[len(ins) // 2], ins[-1]
+                    inv_args["i" + nm] = [y1, [y1, y2], (ymin - 1.0, y2), np.array([[y1, y2], [ymax + 1.0, y1]]), [], [[y2]]]
+    _nested_checks(ev, maps, head, {"bm": args if "bm" in fw else [], "qm": args if "qm" in fw else [],
+                                    "ibm": inv_args.get("ibm", []), "iqm": inv_args.get("iqm", []),
+                                    "qdm": args + [[hi + 5, -3], np.array([[t for t, _ in sp.qd]])]})
+
+    # ---- the maps of the part the model builds by itself from the history (nothing read off the real object)
+    steps = d.get("hist") if d.get("hist") is not None else canonical_hist(d)
+    hx = sorted(set(kin + [first, last, lo, hi]))
+    for nm in ("bm", "qm", "qdm"):
+        if nm in fw or nm == "qdm":
+            try:
+                got = _arr(maps[nm], hx)
+                ev.requests.append("hmap %s %s %s" % (nm, hist_tokens(d, steps), W.lst(W.q, hx)))
+                ev.impl.append(("@approx", _nanlist(got), 1e-9 if nm != "qdm" else 0.0))
+            except Exception as e:
+                ev.oracle.append("raised: %s(array): %r" % (nm, e))
+
+    # ---- edit / query / edit histories: the maps after the history equal those of a part built in one go
+    if d.get("hist") is not None:
+        try:
+            p0 = build(d)
+            fresh = {"bm": p0.beat_map, "qm": p0.quarter_map, "ibm": p0.inv_beat_map, "iqm": p0.inv_quarter_map,
+                     "qdm": p0.quarter_duration_map}
+            probes = {"bm": xs, "qm": xs, "qdm": qx, "ibm": fw.get("bm", [])[: len(ints)], "iqm": fw.get("qm", [])[: len(ints)]}
+            for nm in ("bm", "qm", "ibm", "iqm", "qdm"):
+                if not len(probes[nm]):
+                    continue
+                va, vb = _arr(maps[nm], probes[nm]), _arr(fresh[nm], probes[nm])
+                badi = [i for i in range(len(va)) if not _same(va[i], vb[i])]
+                if badi:
+                    i = badi[0]
+                    ev.oracle.append("stale: after the edit/query history %s(%s) = %r, a part built from the same edits without "
+                                     "intermediate queries gives %r" % (nm, probes[nm][i], va[i], vb[i]))
+            if state_text(p0) != state_text(p):
+                ev.oracle.append("stale: state after the edit/query history %s differs from the state of a part built in one go %s" % (
+                    state_text(p), state_text(p0)))
+        except Exception as e:
+            ev.oracle.append("raised: rebuilding the part without queries: %r" % (e,))
+
     # failures matching the open finding go last, so that a replay shows a new failure first
     ev.oracle.sort(key=lambda f: f.startswith("origin-at-time-0"))
-    ev.key = "%d|%r|%r|%r|%s" % (d["q0"], d["qd"], d["ops"], sp.m1, sp.first)
+    ev.key = "%d|%r|%r|%r|%s|%r" % (d["q0"], d["qd"], d["ops"], sp.m1, sp.first, d.get("hist"))
     ev.info = {"late": first > 0}
+    return ev, p, head, maps
+
+
+def _nested_checks(ev, maps, head, plan):
+    """call every map on arguments of several shapes: the result has the argument's shape, every element equals the
+    scalar call on that element, and the model (which maps the argument pointwise) agrees"""
+    for nm, args in plan.items():
+        f = maps[nm]
+        for a in args:
+            desc = "%s(%r)" % (nm, a.tolist() if isinstance(a, np.ndarray) else a)
+            try:
+                r = f(a)
+                arr = np.asarray(r, dtype=float)
+            except Exception as e:
+                ev.oracle.append("raised: %s: %r" % (desc, e))
+                continue
+            want_shape = np.shape(a)
+            if arr.shape != want_shape:
+                ev.oracle.append("scalar-vs-array: %s has shape %r, the argument has shape %r" % (desc, arr.shape, want_shape))
+                continue
+            flat = [float(x) for x in np.asarray(a, dtype=float).ravel()]
+            try:
+                single = [float(f(x)) for x in flat]
+            except Exception as e:
+                ev.oracle.append("raised: %s element by element: %r" % (desc, e))
+                continue
+            got = [float(x) for x in arr.ravel()]
+            if any(not (u == v or (u != u and v != v)) for u, v in zip(got, single)):
+                ev.oracle.append("scalar-vs-array: %s = %r, element by element %r" % (desc, got, single))
+            nested = np.asarray(a, dtype=float).tolist()
+            ev.requests.append("n%s %s %s" % (nm, head, nested_tokens(nested)))
+            ev.impl.append(("@approx", _nan_nested(arr.tolist()), 0.0 if nm == "qdm" else 1e-9))
+
+
+def evaluate_pair(d):
+    """two parts of one score: the same quarter durations, signatures and beat mode, different extents.  Both are
+    checked as parts; the difference of their maps at common positions is compared with the model
+    (C02.origin_common_across_parts: it is the constant shift2 - shift1, 0 without pickups)."""
+    ea, pa, ha, ma = _eval_part(d["a"])
+    eb, pb, hb, mb = _eval_part(d["b"])
+    ev = Eval(ea.requests + eb.requests, ea.impl + eb.impl, ea.oracle + eb.oracle)
+    ev.info = {"late": bool(ea.info.get("late") or eb.info.get("late"))}
+    ev.key = None if ea.key is None or eb.key is None else "pair|%s|%s" % (ea.key, eb.key)
+    try:
+        fa, la = extent(d["a"])
+        fb, lb = extent(d["b"])
+        xs = list(range(max(fa, fb), min(la, lb) + 1))
+        if xs and len(pa._points) > 1 and len(pb._points) > 1:
+            for which, nm in (("b", "bm"), ("q", "qm")):
+                va, vb = _arr(ma[nm], xs), _arr(mb[nm], xs)
+                ev.requests.append("diff %s %s %s %s" % (which, ha, hb, W.lst(W.q, xs)))
+                ev.impl.append(("@approx", _nanlist([u - v for u, v in zip(va, vb)]), 1e-9))
+    except Exception as e:
+        ev.oracle.append("raised: maps of two parts of one score: %r" % (e,))
+    ev.oracle.sort(key=lambda f: f.startswith("origin-at-time-0"))
     return ev
 
 
@@ -585,9 +941,25 @@ def finding_key(d, failure):
 
 
 def shrink(d):
+    if d.get("kind") == "pair":
+        # a failure of one of the two parts alone is the smaller case
+        yield d["a"]
+        yield d["b"]
+        return
     if d.get("kind") != "part" or extent(d)[0] > 0:
         # a late-starting part always shows the open finding F-C02-1: shrinking it with the predicate
         # "some oracle failure" would drift to that finding, so such cases are kept as found
+        return
+    if d.get("hist") is not None:
+        c = dict(d)
+        del c["hist"]
+        yield c  # the failure does not need the history
+        h = d["hist"]
+        for i in range(len(h) - 1, -1, -1):
+            if h[i][0] == "q":
+                c = dict(d)
+                c["hist"] = h[:i] + h[i + 1:]
+                yield c
         return
     for k in ("qd", "ops", "notes", "halves", "measures"):
         for i in range(len(d[k]) - 1, -1, -1):
@@ -606,10 +978,21 @@ def shrink(d):
 def distribution(descs, results):
     from collections import Counter
 
-    parts = [d for d in descs if d.get("kind") == "part"]
+    pairs = [d for d in descs if d.get("kind") == "pair"]
+    parts = [d for d in descs if d.get("kind") == "part"] + [d[k] for d in pairs for k in ("a", "b")]
+    user = [v for d in parts for o in d["ops"] if o[0] in ("mus", "set") for v in o[1].items()]
+
+    def rel(key, v):
+        b = int(key.split("/")[0])
+        return "divides" if b % v == 0 else ("larger" if v > b else "non-divisor")
+
     return {
         "parts": len(parts),
-        "single_or_empty": len(descs) - len(parts),
+        "pairs_of_one_score": len(pairs),
+        "single_or_empty": len([d for d in descs if d.get("kind") == "single"]),
+        "with_edit_query_history": sum(1 for d in parts if d.get("hist") is not None),
+        "warm_up_queries": sum(sum(1 for s in d["hist"] if s[0] == "q") for d in parts if d.get("hist") is not None),
+        "user_table_values": dict(Counter(rel(k, v) for k, v in user)),
         "modes": dict(Counter(d["mode"] for d in parts)),
         "n_qd_changes": dict(Counter(len(d["qd"]) for d in parts)),
         "n_signatures": dict(Counter(sum(1 for o in d["ops"] if o[0] == "ts") for d in parts)),
